@@ -1,5 +1,7 @@
 import FeatModel.Model.Proto
 import FeatModel.Model.Solver.History
+import FeatModel.Model.Solver.IluSpec
+import FeatModel.Model.Solver.Blocked
 /-!
 line-protocol driver for the C08 models (stationary preconditioners)
 
@@ -10,6 +12,8 @@ line-protocol driver for the C08 models (stationary preconditioners)
   iluf P n L(rowPtr) L(colInd) L(val) L(b)
         → "F L(rpL) L(ciL) L(rpU) L(ciU) L(dataL) L(dataU) L(dataD) Y L(y) Z L(z)"  (y = solve_il b, z = solve_du y)
   scale OMEGA L(fidx) L(x)          → "R .. U1"
+  histb BS KIND P OMEGA n L(rowPtr) L(colInd) L(val) L(fidx) nsteps STEP*   (BCSR, blocks row-major, vectors in pod order)
+        → as `hist` for KIND ∈ sor | ssor (generic blocked sweeps at bs×bs rational matrices), "NOMODEL" otherwise
   diag L(d) L(fidx) L(x)            → "R .. U1" | ABORT
 -/
 open FeatModel FeatModel.Proto FeatModel.LA FeatModel.Solver
@@ -37,6 +41,55 @@ def showR (v : Array Rat) : String := s!"R {showRatsL v.toList} U1"
 
 def tiny : Rat → Bool := tinyRat epsQ
 
+/-! bs×bs rational blocks for the generic blocked sweeps -/
+def matVec (bs : Nat) (m v : Array Rat) : Array Rat :=
+  Array.ofFn (n := bs) fun i => (List.range bs).foldl (fun acc j => acc + m.getD (i.val * bs + j) 0 * v.getD j 0) 0
+
+/-- exact inverse by Gauss–Jordan elimination (the inverse is unique, so any exact method models `set_inverse`) -/
+def matInv (bs : Nat) (m : Array Rat) : Array Rat := Id.run do
+  let mut a : Array (Array Rat) := Array.ofFn (n := bs) fun i => Array.ofFn (n := 2 * bs) fun j =>
+    if j.val < bs then m.getD (i.val * bs + j.val) 0 else if j.val - bs = i.val then 1 else 0
+  for c in [0:bs] do
+    let mut piv := c
+    for r in [c:bs] do
+      if (a.getD piv #[]).getD c 0 == 0 && (a.getD r #[]).getD c 0 != 0 then piv := r
+    let rowP := a.getD piv #[]
+    let rowC := a.getD c #[]
+    a := (a.setIfInBounds piv rowC).setIfInBounds c rowP
+    let p := rowP.getD c 0
+    if p == 0 then return Array.replicate (bs * bs) 0
+    let rowN := rowP.map (· / p)
+    a := a.setIfInBounds c rowN
+    for r in [0:bs] do
+      if r != c then
+        let old := a.getD r #[]
+        let f := old.getD c 0
+        a := a.setIfInBounds r (Array.ofFn (n := 2 * bs) fun j => old.getD j.val 0 - f * rowN.getD j.val 0)
+  return Array.ofFn (n := bs * bs) fun k => (a.getD (k.val / bs) #[]).getD (bs + k.val % bs) 0
+
+def blkOps (bs : Nat) : Blk.Ops Rat (Array Rat) (Array Rat) :=
+  { zero := Array.replicate bs 0, zeroB := Array.replicate (bs * bs) 0,
+    add := fun a b => Array.ofFn (n := bs) fun i => a.getD i.val 0 + b.getD i.val 0,
+    sub := fun a b => Array.ofFn (n := bs) fun i => a.getD i.val 0 - b.getD i.val 0,
+    act := matVec bs, inv := matInv bs, smul := fun w v => v.map (w * ·) }
+
+def chunks (k : Nat) (v : Array Rat) : Array (Array Rat) :=
+  Array.ofFn (n := v.size / k) fun i => Array.ofFn (n := k) fun j => v.getD (i.val * k + j.val) 0
+
+def showRB (v : Array (Array Rat)) : String := showR (v.foldl (· ++ ·) #[])
+
+def runBlocked (bs : Nat) (ssor : Bool) (ω : Rat) (fidx : List Nat) :
+    Csr (Array Rat) → List (Step Rat) → List String → Option (List String)
+  | _, [], acc => some acc.reverse
+  | A, .update v :: r, acc => runBlocked bs ssor ω fidx { A with val := chunks (bs * bs) v } r acc
+  | A, .apply x :: r, acc =>
+    if x.size != A.rows * bs then none
+    else
+      let xb := chunks bs x
+      let y := if ssor then Blk.ssorApply (blkOps bs) ω fidx A xb else Blk.sorApply (blkOps bs) ω fidx A xb
+      runBlocked bs ssor ω fidx A r (showRB y :: acc)
+  | A, _ :: r, acc => runBlocked bs ssor ω fidx A r acc
+
 def handle : P String := do
   let op ← tok
   match op with
@@ -59,6 +112,22 @@ def handle : P String := do
       | .error .exc => pure "EXC"
       | .ok [] => pure "NONE"
       | .ok outs => pure (" ".intercalate (outs.map showR))
+  | "histb" =>
+    let bs ← nat
+    let kindS ← tok
+    let _p ← int
+    let ω ← rat
+    let A ← csrP
+    let fidx ← natList
+    let steps ← listOf stepP
+    if kindS != "sor" && kindS != "ssor" then pure "NOMODEL"
+    else
+      let Ab : Csr (Array Rat) :=
+        { rows := A.rows, cols := A.cols, rowPtr := A.rowPtr, colInd := A.colInd, val := chunks (bs * bs) A.val }
+      match runBlocked bs (kindS == "ssor") ω fidx Ab steps [] with
+      | none => pure "ABORT"
+      | some [] => pure "NONE"
+      | some outs => pure (" ".intercalate outs)
   | "iluf" =>
     let p ← int
     let A ← csrP
@@ -68,7 +137,10 @@ def handle : P String := do
     | some s0 =>
       let s := factorizeSymbolic s0 p
       let f := factorizeNumeric s (copyDataCsr s A)
+      let g := factorizeNumericS s (copyDataCsrS s A)
       if f.dataD.any (· = 0) then pure "ABORT"
+      else if !(f.dataL == g.dataL && f.dataU == g.dataU && f.dataD == g.dataD && s.wf && s.sorted && s.covers A) then
+        pure "MODEL-SPLIT"   -- the two formulations of the numeric factorisation differ / structure not well-shaped
       else
         let y := solveIl (s.matL f) b.toArray (sentinel b.length)
         let z := solveDu (s.matU f) f.dataD y
